@@ -22,6 +22,31 @@ pub trait ByteSlice {
     fn find_byte(&self, byte: u8) -> Option<usize>;
     fn rfind_byte(&self, byte: u8) -> Option<usize>;
     fn as_bytes_mut(&mut self) -> &mut [u8];
+    fn find_iter<'a>(&'a self, needle: &'a [u8]) -> FindIter<'a>;
+}
+
+/// number of leftmost, non-overlapping occurrences of `needle` in `hay[from..]`
+pub open spec fn occ(hay: Seq<u8>, needle: Seq<u8>, from: int) -> nat
+    decreases hay.len() - from,
+{
+    if needle.len() == 0 || from < 0 || from + needle.len() > hay.len() {
+        0
+    } else if hay.subrange(from, from + needle.len()) == needle {
+        1 + occ(hay, needle, from + needle.len())
+    } else {
+        occ(hay, needle, from + 1)
+    }
+}
+
+// bstr::ByteSlice::find_iter(needle).count(): "an iterator over the non-overlapping occurrences"
+pub struct FindIter<'a> { pub hay: &'a [u8], pub needle: &'a [u8] }
+impl<'a> FindIter<'a> {
+    #[verifier::external_body]
+    pub fn count(self) -> (r: usize)
+        ensures r as nat == occ(self.hay@, self.needle@, 0),
+    {
+        unimplemented!()
+    }
 }
 
 impl ByteSlice for [u8] {
@@ -33,6 +58,13 @@ impl ByteSlice for [u8] {
                 Some(k) => k < self@.len() && self@[k as int] == byte
                     && forall|i: int| 0 <= i < k ==> self@[i] != byte,
             },
+    {
+        unimplemented!()
+    }
+
+    #[verifier::external_body]
+    fn find_iter<'a>(&'a self, needle: &'a [u8]) -> (r: FindIter<'a>)
+        ensures r.hay@ == self@, r.needle@ == needle@,
     {
         unimplemented!()
     }
